@@ -12,7 +12,7 @@ Part 2 (checks/c11meta.py): structured vs hand-flattened module pairs and load-o
 import itertools, re
 from vlib.proto import hexs, unhex
 
-LEAN_TARGETS = ["LyModel.Props.C11"]
+LEAN_TARGETS = ["LyModel.Props.C11", "LyModel.Props.C11Range"]
 AUDIT = "Audit/C11.lean"
 GENERATED = ["Consts"]
 ASSUMPTIONS = [
